@@ -17,6 +17,28 @@ def dense(a):
     return a.todense() if hasattr(a, 'todense') else np.asarray(a)
 
 
+def dtype_failure(cfg, dt):
+    """the optional dtype of the result: the values are the float64 ones rounded to that dtype (so the partition of unity holds to the
+    resolution of the dtype), for dense and sparse results"""
+    kw = dict(centerX=cfg['centerX'], centerY=cfg['centerY'], imageSizeX=cfg['imageSizeX'], imageSizeY=cfg['imageSizeY'], radius=cfg['radius'],
+              radius_inner=cfg['radius_inner'], n_bins=cfg['n_bins'])
+    ref = dense(masks.radial_bins(use_sparse=False, **kw)).astype(np.float64)
+    eps = float(np.finfo(dt).eps)
+    for sp in (False, True):
+        try:
+            b = dense(masks.radial_bins(use_sparse=sp, dtype=dt, **kw))
+        except Exception as e:  # noqa
+            return 'radial_bins(dtype=%s, use_sparse=%s) raised %s: %s' % (np.dtype(dt).name, sp, type(e).__name__, e)
+        if b.dtype != np.dtype(dt):
+            return 'radial_bins(dtype=%s, use_sparse=%s) returned dtype %s' % (np.dtype(dt).name, sp, b.dtype)
+        d = np.abs(b.astype(np.float64) - ref)
+        if d.max() > 2 * eps:
+            i = np.unravel_index(np.argmax(d), d.shape)
+            return 'radial_bins(dtype=%s, use_sparse=%s): value %.8g at bin/pixel %s differs from the float64 value %.8g by more than the resolution of the dtype' % (
+                np.dtype(dt).name, sp, float(b[i]), tuple(int(v) for v in i), float(ref[i]))
+    return None
+
+
 def stmt_failure(cfg):
     """the statement on the implementation for one configuration"""
     cx, cy, sx, sy, radius, ri, n = cfg['centerX'], cfg['centerY'], cfg['imageSizeX'], cfg['imageSizeY'], cfg['radius'], cfg['radius_inner'], cfg['n_bins']
@@ -43,7 +65,7 @@ def stmt_failure(cfg):
         if inside.any() and np.abs(s[inside] - 1).max() > 1e-9:
             i = np.argwhere(inside & (np.abs(s - 1) > 1e-9))[0]
             return 'bins sum to %.6g instead of 1 at pixel %s (r=%.4f) inside [ri+0.5, radius-0.5] (use_sparse=%s)' % (s[tuple(i)], tuple(i), r[tuple(i)], sp)
-        outside = (r >= radius + 0.5 + 1e-9) | (r <= ri - 0.5 - 1e-9)
+        outside = (r >= radius + 0.5 + 1e-9) | (r <= ri - 0.5 - 1e-9) | ((r == 0) & (ri >= 0.5))       # r = 0 is exact: the centre pixel is 0.5 px outside an inner radius of 0.5
         if outside.any() and np.abs(s[outside]).max() > 1e-9:
             i = np.argwhere(outside & (np.abs(s) > 1e-9))[0]
             return 'bins sum to %.6g instead of 0 at pixel %s (r=%.4f) outside (use_sparse=%s)' % (s[tuple(i)], tuple(i), r[tuple(i)], sp)
@@ -120,7 +142,8 @@ def rand_cfg(rng):
 
 
 def replay(body):
-    fail = default_layout_failure(body['args']) if body['args'].get('default_layout') else stmt_failure(body['args'])
+    a_ = body['args']
+    fail = dtype_failure(a_, a_['dtype']) if a_.get('dtype') else (default_layout_failure(a_) if a_.get('default_layout') else stmt_failure(a_))
     print(json.dumps({'failure_now': fail}, indent=1))
     if fail:
         print('VIOLATION property=C18 replay=(given)')
@@ -219,6 +242,16 @@ def run(ctx):
             if found:
                 break
         if found:
+            break
+    for k in range(ctx.n(40, 400)):
+        cfg = rand_cfg(rng)
+        if k % 2:
+            cfg.update(radius=cfg['radius'] + 20.0, imageSizeX=cfg['imageSizeX'] + 30, imageSizeY=cfg['imageSizeY'] + 30)     # distances of tens of pixels
+        dt = ['float32', 'float16'][k % 2 if k % 4 else 0]
+        fail = dtype_failure(cfg, dt)
+        ctx.count(2, key=('dtype', dt, json.dumps(cfg, sort_keys=True)))
+        if fail:
+            ctx.violation('input', fail, {'kind': 'input', 'call': 'radial_bins', 'args': dict(cfg, dtype=dt), 'failure': fail})
             break
     for k in range(ctx.n(60, 600)):
         cfg = rand_cfg(rng)
